@@ -36,6 +36,8 @@ pub struct TimerReq {
   pub step: u64,
   /// the duration exactly as requested
   pub dur: Duration,
+  /// the real clock when the request was made
+  pub wall: std::time::Instant,
 }
 
 #[derive(Default)]
@@ -75,7 +77,7 @@ fn new_vtimer(d: Duration) -> BoxFuture<'static, ()> {
       w.timers_this_step < 50_000,
       "runaway: 50000 timers requested at one instant within one scheduler step (a zero-length period?), last duration {d:?}"
     );
-    w.timer_log.push(TimerReq { at, ticks: t, step, dur: d });
+    w.timer_log.push(TimerReq { at, ticks: t, step, dur: d, wall: std::time::Instant::now() });
     w.timers.push(Timer { due, waker: None, done: false });
     w.timers.len() - 1
   });
